@@ -52,6 +52,7 @@ type summary struct {
 	Classes     map[string]int    `json:"classes"`
 	Engines     map[string]int    `json:"engines"`
 	Ops         int               `json:"ops"`
+	KnownHits   map[string]int    `json:"known_hits"`
 }
 
 type finding struct {
@@ -167,7 +168,7 @@ func main() {
 				cmd := exec.Command(*bin, "-test.run", "^TestWorker$", "-test.timeout", "0")
 				cmd.Env = append(os.Environ(), "VERIF_PROP="+prop, "VERIF_TIER="+tier, fmt.Sprintf("VERIF_SEED=%d", seed),
 					fmt.Sprintf("VERIF_FROM=%d", from), fmt.Sprintf("VERIF_TO=%d", to), "VERIF_OUT="+out,
-					fmt.Sprintf("VERIF_BUDGET_S=%d", left), "GOMAXPROCS=2")
+					fmt.Sprintf("VERIF_BUDGET_S=%d", left), "GOMAXPROCS=2", "VERIF_KNOWN="+filepath.Join(*verif, "known_findings.json"))
 				errLog, _ := os.Create(out + ".stderr")
 				cmd.Stderr = errLog
 				cmd.Stdout = errLog
@@ -214,7 +215,7 @@ func main() {
 		os.Exit(2)
 	}
 	// aggregate
-	agg := &summary{Probes: map[string]int{}, Fired: map[string]int{}, SiteHits: map[string]uint64{}, Classes: map[string]int{}, Engines: map[string]int{}}
+	agg := &summary{KnownHits: map[string]int{}, Probes: map[string]int{}, Fired: map[string]int{}, SiteHits: map[string]uint64{}, Classes: map[string]int{}, Engines: map[string]int{}}
 	sched, nt, states := map[uint64]bool{}, map[uint64]bool{}, map[uint64]bool{}
 	for _, s := range sums {
 		agg.Runs += s.Runs
@@ -235,6 +236,9 @@ func main() {
 		}
 		for k, v := range s.Classes {
 			agg.Classes[k] += v
+		}
+		for k, v := range s.KnownHits {
+			agg.KnownHits[k] += v
 		}
 		for k, v := range s.Engines {
 			agg.Engines[k] += v
@@ -307,7 +311,11 @@ func main() {
 	// static; the check never adds to it)
 	for _, k := range known.Findings {
 		if k.Property == prop && !printedKnown[k.Property+"|"+k.Sig] {
-			fmt.Printf("KNOWN-FINDING: property=%s %s (not re-encountered in this run)\n", k.Property, k.What)
+			if n := agg.KnownHits[k.Property+"|"+k.Sig]; n > 0 {
+				fmt.Printf("KNOWN-FINDING: property=%s %s (re-encountered in %d runs)\n", k.Property, k.What, n)
+			} else {
+				fmt.Printf("KNOWN-FINDING: property=%s %s (not re-encountered in this run)\n", k.Property, k.What)
+			}
 		}
 	}
 
@@ -382,6 +390,7 @@ func writeEvidence(verif, prop, tier string, seed uint64, cfg propCfg, a *summar
 		"real_components":      cfg.Real,
 		"stubbed_components":   cfg.Stub,
 		"known_findings":       kf,
+		"known_finding_hits":   a.KnownHits,
 	}
 	ev := map[string]interface{}{
 		"property_id": prop, "tier": tier, "seed": seed, "level": cfg.Level, "coverage": cov,
